@@ -144,6 +144,7 @@ def main():
     patch_pkg(goroot, out, "net", NET_RENAMES, "zz_verif_net.go.txt", replace)
     patch_pkg(goroot, out, "sync", SYNC_RENAMES, "zz_verif_sync.go.txt", replace)
     patch_pkg(goroot, out, "runtime", [], "zz_verif_runtime.go.txt", replace)
+    patch_pkg(goroot, out, "net/http", [], "zz_verif_nethttp.go.txt", replace)
     repo = os.environ.get("VERIF_REPO", "/repo")
     os.makedirs(os.path.join(out, "shims"), exist_ok=True)
     for i, (dst, src) in enumerate(sorted(REPO_SHIMS.items())):
